@@ -115,7 +115,10 @@ def ser_qmap(qc):
 
 # ---------------------------------------------------------------- python ast
 def ser_ast(node):
-    """ast -> JSON; node class names are kept (the PySem module interprets them)."""
+    """ast -> JSON; node class names are kept in field "T" (spec/PySem.tla interprets them).
+    Identifier-valued fields stay plain strings; the payload of a Constant is wrapped with its kind."""
+    if isinstance(node, ast.Constant):
+        return {"T": "Constant", "value": _payload(node.value)}
     if isinstance(node, ast.AST):
         d = {"T": type(node).__name__}
         for f in node._fields:
@@ -128,12 +131,20 @@ def ser_ast(node):
         return d
     if isinstance(node, list):
         return [ser_ast(x) for x in node]
-    if isinstance(node, bool):
-        return {"T": "bool", "v": node}
-    if isinstance(node, int):
-        return {"T": "int", "v": node}
-    if isinstance(node, float):
-        return {"T": "float", "v": repr(node)}
-    if isinstance(node, str):
-        return {"T": "str", "v": node}
-    return {"T": "opaque", "v": repr(node)}
+    if isinstance(node, (str, int)) and not isinstance(node, bool):
+        return node
+    return _payload(node)
+
+
+def _payload(v):
+    if isinstance(v, bool):
+        return {"T": "bool", "v": v}
+    if isinstance(v, int):
+        return {"T": "int", "v": v} if abs(v) < 2 ** 31 else {"T": "bigint", "v": str(v)}
+    if isinstance(v, float):
+        return {"T": "float", "v": repr(v)}
+    if isinstance(v, str):
+        return {"T": "str", "v": v}
+    if isinstance(v, ast.AST):  # the rewriter stores ast.Tuple inside Constant
+        return {"T": "node", "v": ser_ast(v)}
+    return {"T": "opaque", "v": repr(v)}
